@@ -1,39 +1,50 @@
 #!/usr/bin/env python3
-"""heuristic report: optional parameters (parameters with defaults) of the functions defined in the anchor files that no
-contract file mentions as a keyword (`name=`) together with the function / class name.  A hint list for extending
-contracts, not evidence."""
-import ast, glob, json, os, re
+"""option coverage: optional parameters (parameters with a default) of the functions defined in the anchor files that NO
+check ever called with a non-default value during its runs (recorded by `VERIF_TRACE=1 ./check Cnn`, coverage/*.json:
+the profiler compares the value of every optional parameter with its default at call time).  A hint list for extending
+contracts -- not evidence."""
+import ast, glob, json, os
 R = os.path.dirname(os.path.dirname(os.path.abspath(__file__)))
 props = [json.loads(l) for l in open(os.path.join(R, "properties.jsonl"))]
-text = {f: open(f).read() for f in glob.glob(os.path.join(R, "contracts", "*.py"))}
-alltext = "\n".join(text.values())
+used, executed = set(), set()
+for f in glob.glob(os.path.join(R, "coverage", "C*.executed.json")):
+    j = json.load(open(f))
+    for item in j.get("optional_parameters_given_a_non_default_value", []):
+        rel, ln, qn, par = item.rsplit(":", 3)
+        used.add((rel, int(ln), par))
+    for item in j.get("functions_executed_in_symbolic_runs", []):
+        rel, ln, nm = item.rsplit(":", 2)
+        executed.add((rel, int(ln)))
 files = sorted({f for p in props for pat in p["anchors"]["files"] for f in glob.glob(os.path.join("/repo", pat))})
 SKIP = {"plot", "screenshot", "imshow", "view", "__repr__", "__str__"}
-out = []
+IGN = {"kwargs", "dtype"}
+n_opt = n_miss = 0
+rows = []
 for f in files:
-    try:
-        tree = ast.parse(open(f).read())
-    except Exception:
-        continue
+    rel = os.path.relpath(f, "/repo")
+    tree = ast.parse(open(f).read())
+    owners = {}
     for node in ast.walk(tree):
         if isinstance(node, ast.ClassDef):
             for sub in node.body:
                 if isinstance(sub, ast.FunctionDef):
-                    sub._owner = node.name
+                    owners[sub] = node.name
     for node in ast.walk(tree):
         if not isinstance(node, ast.FunctionDef) or node.name in SKIP or node.name.startswith("_plot"):
             continue
-        owner = getattr(node, "_owner", None)
         a = node.args
         names = [x.arg for x in a.args]
         defaults = names[len(names) - len(a.defaults):] + [k.arg for k, d in zip(a.kwonlyargs, a.kw_defaults) if d is not None]
-        label = (owner + "." if owner else "") + node.name
-        key = owner if (owner and node.name == "__init__") else node.name.lstrip("_")
-        if not key or not re.search(r"\b" + re.escape(key) + r"\b", alltext):
+        defaults = [d for d in defaults if d not in IGN]
+        if not defaults:
             continue
-        miss = [d for d in defaults if d not in ("self", "kwargs", "out", "dtype", "parallel") and not re.search(r"\b" + re.escape(d) + r"\s*=", alltext)]
+        lines = {node.lineno} | {d.lineno for d in node.decorator_list}
+        ran = any((rel, l) in executed for l in lines)
+        miss = [d for d in defaults if not any((rel, l, d) in used for l in lines)]
+        n_opt += len(defaults)
+        n_miss += len(miss)
         if miss:
-            out.append((os.path.relpath(f, "/repo/src/felupe"), label, miss))
-for f, l, m in out:
-    print(f"{f}: {l}: {', '.join(m)}")
-print(len(out), "functions with optional parameters never written as a keyword in any contract file")
+            rows.append((rel, (owners.get(node, "") + "." if node in owners else "") + node.name, miss, ran))
+for rel, name, miss, ran in rows:
+    print(f"{rel}: {name}{'' if ran else ' (never executed in a symbolic run)'}: {', '.join(miss)}")
+print(f"{n_opt - n_miss}/{n_opt} optional parameters of anchored functions were given a non-default value in some check; {n_miss} never")
